@@ -3,6 +3,7 @@ mod c06;
 mod c07;
 mod c14;
 mod c16;
+mod pktkeys;
 
 use vcore::{Args, Report};
 
